@@ -216,6 +216,9 @@ func Main(args []string) int {
 		return 2
 	}
 	switch args[0] {
+	case "bench":
+		Bench()
+		return 0
 	case "list":
 		ids := []string{}
 		for id := range registry {
